@@ -42,7 +42,7 @@ var (
 )
 
 var disabledTests = map[string]bool{
-	"in-house/macos.tests": true,
+	"in-house/macos.tests":              true,
 	"text-rendering-tests/CMAP-3.tests": true, "text-rendering-tests/SHARAN-1.tests": true,
 	"text-rendering-tests/SHBALI-1.tests": true, "text-rendering-tests/SHBALI-2.tests": true,
 	"text-rendering-tests/SHKNDA-2.tests": true, "text-rendering-tests/SHKNDA-3.tests": true,
